@@ -56,8 +56,8 @@ RULE = (
     "rechunk / rechunk_to_mb / target frontend / chunk_number_group given or defaulted), all drawn from Hypothesis "
     "strategies; perchunk_exh enumerates ALL compositions for fixed layouts of 1-5 (quick) / 1-7 (thorough) "
     "chunks; rechunker_process enumerates layouts x compressor x target x destination mode.  Non-trivial = the "
-    "stored data has >=3 chunks and (the compressor changed, or the chunk layout changed, or there are >=2 "
-    "per-chunk jobs).  distinct = distinct descriptor hashes."
+    "data has >=3 chunks (before or after the operation) and (the compressor changed, or the chunk layout changed, "
+    "or there are >=2 per-chunk jobs).  distinct = distinct descriptor hashes."
 )
 ASSUMPTIONS = [
     "stored data obeys the laws of chunking: rows sorted by time, positive duration, wholly inside one chunk, chunks "
@@ -82,7 +82,7 @@ ENV = {"NUMBA_DISABLE_JIT": "1"}
 RUN = "r"
 COMPRESSORS = ["blosc", "zstd", "lz4", "bz2"]
 UNITS = [1, 7, 500, 1000, 1000, 1001, 1001, 250_000_000]
-PROCS = ["single_thread", "single_thread", "threaded_mailbox"]
+PROCS = ["single_thread", "threaded_mailbox"]
 _COUNTER = itertools.count()
 
 # a daemon monitor thread per process would otherwise be started by the first progress bar
@@ -129,19 +129,46 @@ KEEPS = [[1, 1], [1, 1], [2, 0], [2, 1], [3, 0], [3, 2], [1, 0]]  # (mod, rem): 
 
 
 @st.composite
-def st_layout(draw, max_rows=(5, 12, 12, 24), cuts=None, ros=(0, 0, 0, 1, 2, 4)):
+def st_cuts(draw, rows, t1):
+    """Sorted multiset of admissible cut times (duplicates and cuts at the run edges give zero-duration chunks, cuts
+    in row-free regions give empty chunks); >= 2 cuts favoured so that most layouts have >= 3 chunks."""
+    adm = gen.admissible_times(rows, 0, t1)
+    shape = draw(st.sampled_from(["few", "few", "many", "many", "all", "none", "dup", "ends"]))
+    if shape == "none":
+        return []
+    if shape == "all":
+        return list(adm)
+    lo, hi = (3, 7) if shape == "many" else (1, 3)
+    cuts = draw(st.lists(st.sampled_from(adm), min_size=lo, max_size=hi))
+    if shape == "dup":
+        cuts.append(cuts[draw(st.integers(0, len(cuts) - 1))])
+    if shape == "ends":
+        cuts += draw(st.sampled_from([[0], [t1], [0, t1], [t1, t1]]))
+    return sorted(cuts)
+
+
+@st.composite
+def st_layout(draw, max_rows=(5, 12, 12, 24), ros=(0, 0, 0, 1, 2, 4), few_cuts=False):
     fields = draw(c03.st_fields())
     nlead = draw(st.integers(0, len(fields))) if draw(st.booleans()) else 0
     rows = draw(gen.st_rows(max_n=draw(st.sampled_from(list(max_rows))),
                             mode=draw(st.sampled_from(["disjoint", "disjoint", "any"]))))
+    min_n = draw(st.sampled_from([0, 1, 3, 4, 6, 9]))
+    if len(rows) < min_n:  # pad with disjoint rows separated by drawn gaps (construction, not rejection)
+        t = rows[-1][1] if rows else 0
+        for _ in range(min_n - len(rows)):
+            a = t + draw(st.integers(0, 3))
+            t = a + draw(st.integers(1, 3))
+            rows.append([a, t])
     t1 = max([b for _, b in rows] + [0]) + draw(st.integers(0, 2))
     t1 = max(t1, 1)
+    cuts = draw(gen.st_cuts(rows, 0, t1, max_cuts=2)) if few_cuts else draw(st_cuts(rows, t1))
     return dict(
         enc=draw(st.sampled_from(["endtime", "endtime", "dt"])),
         time_titles=draw(st.sampled_from([True, True, False])),
         fields=fields, nlead=nlead,
         unit=draw(st.sampled_from(UNITS)), dtk=draw(st.integers(0, 3)), shift=draw(st.sampled_from([0, 0, 1, 3])),
-        rows=rows, t1=t1, cuts=draw(gen.st_cuts(rows, 0, t1)) if cuts is None else draw(cuts(rows, t1)),
+        rows=rows, t1=t1, cuts=cuts,
         seed=draw(st.integers(0, 2 ** 31 - 1)),
         comp=draw(st.sampled_from(COMPRESSORS)),
         ros=draw(st.sampled_from(list(ros))),
@@ -502,12 +529,14 @@ def _run_copy(d, lay, root):
     want_comp = op["comp"] or src_meta["compressor"]
     cl = base_classes(lay, target, src_entries)
     changed = False
+    nmax = 0
     for i, p in enumerate(dirs):
         if i in dests:
             check(sorted(os.listdir(p)) == [key], "copy.destination_frontend_content", (i, sorted(os.listdir(p)), d))
             meta, entries = check_destination(lay, target, os.path.join(p, key), src_meta, src_entries, want_comp,
                                               op["rechunk"], d, "copy", plugins, op["k"])
             changed = changed or spans(entries) != spans(src_entries)
+            nmax = max(nmax, len(entries))
         else:
             # the source frontend and frontends that were not asked / are read-only stay byte-identical
             check(snapshot(p) == before[i], "copy.source_modified" if i == op["src"] else "copy.bystander_modified",
@@ -527,7 +556,7 @@ def _run_copy(d, lay, root):
         cl.add("default_rechunk_to_mb")
     if changed:
         cl.add("layout_changed")
-    return dict(nt=len(src_entries) >= 3 and (recompressed or changed), classes=sorted(cl))
+    return dict(nt=max(len(src_entries), nmax) >= 3 and (recompressed or changed), classes=sorted(cl))
 
 
 # ------------------------------------------------------------------------------------------------
@@ -539,7 +568,7 @@ DEST_MODES = ["new_parent", "new_full", "replace_tmp", "replace_parent", "replac
 @st.composite
 def st_rechunker(draw):
     L = draw(st_layout())
-    script = draw(st.integers(0, 6)) == 0
+    script = draw(st.sampled_from([False] * 7 + [True]))
     op = dict(comp=draw(st.sampled_from([None] + COMPRESSORS)),
               tgt=draw(st.sampled_from([None, 1, 2, 3, 5, 8])),
               rechunk=draw(st.booleans()),
@@ -566,7 +595,7 @@ def grid_layout(i, k, **kw):
     lay = GRID_LAYOUTS[i]
     L = dict(enc="endtime" if k % 2 == 0 else "dt", time_titles=True, fields=GRID_FIELDS, nlead=1, unit=1000, dtk=k,
              shift=k % 3, rows=lay["rows"], t1=lay["t1"], cuts=lay["cuts"], seed=1000 + k,
-             comp=COMPRESSORS[k % 4], ros=0, proc=PROCS[1 + k % 2], workers=1 + k % 2, keep=KEEPS[k % 6],
+             comp=COMPRESSORS[k % 4], ros=0, proc=PROCS[k % 2], workers=1 + k % 2, keep=KEEPS[k % 6],
              keep2=KEEPS[0], a_ros=0, a_comp=COMPRESSORS[(k + 1) % 4])
     L.update(kw)
     return L
@@ -666,7 +695,7 @@ def _run_rechunker(d, lay, root):
         cl.add("layout_changed")
         if len(entries) > 1:
             cl.add("layout_changed_multi_out")
-    return dict(nt=len(src_entries) >= 3 and (recompressed or changed), classes=sorted(cl))
+    return dict(nt=max(len(src_entries), len(entries)) >= 3 and (recompressed or changed), classes=sorted(cl))
 
 
 # ------------------------------------------------------------------------------------------------
@@ -674,7 +703,8 @@ def _run_rechunker(d, lay, root):
 # ------------------------------------------------------------------------------------------------
 @st.composite
 def st_load_rechunk(draw):
-    L = draw(st_layout())
+    # the loader only splits at gaps > 1000 ns between rows of one stored chunk: large units, few stored chunks
+    L = draw(st_layout(few_cuts=draw(st.booleans())))
     L["unit"] = draw(st.sampled_from([500, 1000, 1000, 1001, 1001, 250_000_000, 1]))
     return dict(layout=L, op=dict(rol=draw(st.sampled_from([1, 1, 2, 3, 6])), down=draw(st.booleans())))
 
@@ -714,7 +744,7 @@ def _run_load_rechunk(d, lay, root):
         cl.add("downstream")
         shutil.rmtree(os.path.join(os.path.dirname(src_path), str(ctx.key_for(RUN, "aa"))), ignore_errors=True)
     check(snapshot(os.path.dirname(src_path)) == before, "load_rechunk.source_modified", d)
-    return dict(nt=len(src_entries) >= 3 and split, classes=sorted(cl))
+    return dict(nt=max(len(src_entries), len(loaded)) >= 3 and split, classes=sorted(cl))
 
 
 # ------------------------------------------------------------------------------------------------
@@ -735,19 +765,19 @@ def groups_of(nch, bounds):
 def st_perchunk(draw):
     L = draw(st_layout(max_rows=(5, 12, 12), ros=(0,)))
     nch = len(L["cuts"]) + 1
-    mode = draw(st.sampled_from(["any", "any", "singletons", "one"]))
-    bounds = [True if mode == "singletons" else False if mode == "one" else draw(st.booleans())
+    mode = draw(st.sampled_from(["any", "any", "any", "singletons", "one"]))
+    bounds = [True if mode == "singletons" else False if mode == "one" else draw(st.sampled_from([True, True, False]))
               for _ in range(nch - 1)]
     ng = 1 + sum(bounds)
     order = draw(st.permutations(list(range(ng))))
     partial = None
-    if ng >= 3 and draw(st.integers(0, 2)) == 0:
+    if ng >= 3 and draw(st.sampled_from([True, False])):
         # >= 2 jobs (one job alone already is its own "merge"), not all of them
         i = draw(st.integers(0, ng - 2))
         j = draw(st.integers(i + 2, ng))
         if (i, j) != (0, ng):
             partial = [i, j]
-    return dict(layout=L, target=draw(st.sampled_from(["aa", "aa", "bb"])), bounds=bounds, order=order,
+    return dict(layout=L, target=draw(st.sampled_from(["bb", "aa"])), bounds=bounds, order=order,
                 op=dict(rechunk=draw(st.booleans()), tgt=draw(st.sampled_from([None, 1, 2, 3, 5, 8])),
                         comp=draw(st.sampled_from([None, None] + COMPRESSORS)),
                         frontend=draw(st.sampled_from(["same", "same", "other", "all"])),
@@ -937,10 +967,10 @@ def _run_perchunk(d, lay, root):
 
 
 SUBCHECKS = [
-    SubCheck("copy", run_copy, strategy=st_copy, quick=700, thorough=12000),
-    SubCheck("rechunker", run_rechunker, strategy=st_rechunker, quick=900, thorough=16000),
+    SubCheck("copy", run_copy, strategy=st_copy, quick=600, thorough=12000),
+    SubCheck("rechunker", run_rechunker, strategy=st_rechunker, quick=800, thorough=16000),
     SubCheck("rechunker_process", run_rechunker, enumerate=enum_rechunker_process),
-    SubCheck("load_rechunk", run_load_rechunk, strategy=st_load_rechunk, quick=400, thorough=6000),
-    SubCheck("perchunk", run_perchunk, strategy=st_perchunk, quick=400, thorough=6000),
+    SubCheck("load_rechunk", run_load_rechunk, strategy=st_load_rechunk, quick=320, thorough=6000),
+    SubCheck("perchunk", run_perchunk, strategy=st_perchunk, quick=360, thorough=6000),
     SubCheck("perchunk_exh", run_perchunk, enumerate=enum_perchunk, exhaustive_in=("quick", "thorough")),
 ]
